@@ -382,6 +382,9 @@ class Impl:
         self.scratch = scratch
         self.home = os.path.join(scratch, "home")
         os.makedirs(self.home, exist_ok=True)
+        # fselect writes its default configuration file on first exit; do that once, serially, so that
+        # concurrently started runs never observe a half-written file
+        self.run(["name from %s limit 1" % self.home], cwd=scratch)
 
     def run(self, argv, cwd, timeout=10, env=None, stdin=None, user=None, config=None):
         """Return dict(status, stdout(bytes), stderr(bytes)); status 'hang' on timeout."""
